@@ -156,12 +156,13 @@ def Keys.revealMACKeys (k : Keys) : List Bytes × Keys := (k.oldMACKeys, { k wit
 /-- rotateOurKeys; `newPriv` is the result of randSizedSecret(40): none = randomness failure -/
 def Keys.rotateOurKeys (K : Crypto) (k : Keys) (recipientKeyID : Nat) (newPriv : Option Bytes) : Keys × Option Err :=
   if recipientKeyID = k.ourKeyID then
-    let (rev, hist) := forgetMacKeys k.macHistory (fun u => u.ourKeyID == k.ourKeyID - 1)
-    let k := { k with macHistory := hist, oldMACKeys := k.oldMACKeys ++ rev,
-                      counters := k.counters.filter (fun c => c.ourKeyID != k.ourKeyID - 1) }
+    -- repaired code: the new key is drawn first; on failure nothing has changed
     match newPriv with
     | none => (k, some .shortRandom)
     | some priv =>
+      let (rev, hist) := forgetMacKeys k.macHistory (fun u => u.ourKeyID == k.ourKeyID - 1)
+      let k := { k with macHistory := hist, oldMACKeys := k.oldMACKeys ++ rev,
+                        counters := k.counters.filter (fun c => c.ourKeyID != k.ourKeyID - 1) }
       ({ k with ourPrev := k.ourCur, ourCur := some ⟨K.gexp dhG (bytesToNat priv), priv⟩, ourKeyID := k.ourKeyID + 1 }, none)
   else (k, none)
 
